@@ -416,6 +416,45 @@ func Run(r *fw.Run) {
 	// overlapping calls: every interleaving of two Hash1 calls at their open/read callbacks
 	overlapPart(r)
 
+	// resources: HashDir and HashZip of a module with more files than the process may have descriptors open
+	{
+		scratch := r.Scratch()
+		base := filepath.Join(scratch, "fdlimit")
+		os.RemoveAll(base)
+		want := map[string]string{}
+		var fs []modzip.File
+		for i := 0; i < 500; i++ {
+			n := fmt.Sprintf("d%d/f%04d.go", i%7, i)
+			full := filepath.Join(base, "t", filepath.FromSlash(n))
+			os.MkdirAll(filepath.Dir(full), 0o755)
+			os.WriteFile(full, []byte("c"+strconv.Itoa(i)), 0o644)
+			want["p/"+n] = "c" + strconv.Itoa(i)
+			fs = append(fs, memfile.Reg(n, "c"+strconv.Itoa(i)))
+		}
+		var buf bytes.Buffer
+		mv := module.Version{Path: "example.com/m", Version: "v1.0.0"}
+		zerr := modzip.Create(&buf, mv, fs)
+		zp := filepath.Join(base, "m.zip")
+		os.WriteFile(zp, buf.Bytes(), 0o644)
+		var hd, hz string
+		var e1, e2 error
+		ok := fw.WithFDLimit(120, func() {
+			hd, e1 = dirhash.HashDir(filepath.Join(base, "t"), "p", dirhash.Hash1)
+			hz, e2 = dirhash.HashZip(zp, dirhash.Hash1)
+		})
+		os.RemoveAll(base)
+		r.States.Add(1)
+		r.Execs.Add(2)
+		r.Bounds["descriptor_limit"] = "500 files with at most 120 open descriptors (HashDir, HashZip)"
+		wantZ := map[string]string{}
+		for k, v := range want {
+			wantZ["example.com/m@v1.0.0/"+strings.TrimPrefix(k, "p/")] = v
+		}
+		if ok && (e1 != nil || hd != refHash(want) || zerr != nil || e2 != nil || hz != refHash(wantZ)) {
+			r.Violation("fd-limit", fmt.Sprintf("500 files with at most 120 open descriptors: HashDir=%s err=%v (formula %s); HashZip=%s err=%v (formula %s)", hd, e1, refHash(want), hz, e2, refHash(wantZ)), caseT{Kind: "fd-limit"})
+		}
+	}
+
 	// spellings of the directory argument, including the current directory (sequential: chdir is process wide)
 	dirPart(r)
 }
@@ -429,6 +468,9 @@ func dirTrees() []map[string]string {
 		{".github/ci.yml": "on: push\n", "github/ci.yml": "other", "sub/.keep": ""},
 		{"..a": "1", ".a": "2", "a": "3", "sub/..a": "4", "sub/.a": "5"},
 		{"sub/sub/x": "1", "sub/x": "2", "x": "3"},
+		// a directory next to files and directories named like it plus a byte below the separator (the order of
+		// a directory walk is not the byte order of the full names)
+		{"doc.go": "1", "doc/doc.go": "2", "doc-a/x": "3", "doc e/x": "4", "doc!": "5", "doc/+": "6", "sub/doc.go": "7", "sub/doc/z": "8"},
 	}
 }
 
@@ -750,10 +792,10 @@ func zipCase(scratch string, id int, z zipSpec) (msg string, created bool) {
 
 func zipSpecs(thorough bool) []zipSpec {
 	mods := [][2]string{{"example.com/m", "v1.0.0"}, {"example.com/m/v2", "v2.0.0"}, {"gopkg.in/y.v1", "v1.2.3"}, {"example.com/M", "v2.0.0+incompatible"}}
-	paths := []string{"a.tmp", "a", "b/c.tmp/d", "b/c", "go.mod", "LICENSE", "x y", "é", "sub/go.mod", "sub/x.go", "vendor/p/q.go", "vendor/modules.txt", "A/b", "d/e/f"}
+	paths := []string{"a.tmp", "a", "b/c.tmp/d", "b/c", "b.go", "b-x/y", "go.mod", "LICENSE", "x y", "é", "sub/go.mod", "sub/x.go", "vendor/p/q.go", "vendor/modules.txt", "A/b", "d/e/f"}
 	datas := []string{"", "x", "module example.com/m\n\ngo 1.24\n"}
 	if !thorough {
-		paths = paths[:12]
+		paths = paths[:14]
 	}
 	var out []zipSpec
 	for _, mv := range mods {
